@@ -227,6 +227,10 @@ class Mailbox:
 
     S4A.upon(connected, enter=S4B, outputs=[])
     S4B.upon(lost, enter=S4A, outputs=[])
+    # close() may be called from inside the processing of the server's
+    # "claimed" (e.g. from a when_wordlist_is_available() callback), just
+    # before Nameplate hands us the mailbox
+    S4.upon(got_mailbox, enter=S4, outputs=[])
     S4.upon(add_message, enter=S4, outputs=[])
     S4.upon(rx_message_theirs, enter=S4, outputs=[])
     S4.upon(rx_message_ours, enter=S4, outputs=[])
